@@ -23,6 +23,10 @@ fn statements() -> Vec<String> {
     v.push("SELECT k, MIN(s), MAX(s), MIN(ts), MAX(ts) FROM t GROUP BY k".into());
     v.push("SELECT MIN(s), MAX(ts), COUNT(DISTINCT v) FROM t WHERE v IS NOT NULL".into());
     v.push("SELECT k, AVG(v), STDDEV(v), VARIANCE(r) FROM t GROUP BY k HAVING COUNT(*) > 1".into());
+    // longer select lists: a COUNT(DISTINCT ...) in front of several other aggregates, and between them
+    v.push("SELECT k, COUNT(DISTINCT v), AVG(r), SUM(v) FROM t GROUP BY k".into());
+    v.push("SELECT COUNT(DISTINCT s), SUM(v), STDDEV(v), COUNT(DISTINCT v), AVG(r), PERCENTILE(v, 0.5) FROM t".into());
+    v.push("SELECT k, SUM(r), COUNT(DISTINCT b), MIN(v), COUNT(DISTINCT v), MAX(s), AVG(v) FROM t GROUP BY k".into());
     v
 }
 
